@@ -25,7 +25,7 @@ import os
 import pathlib
 import time
 
-from harness.common import REPO, SEED, Check, MachineryError, parse_printed_json, quiet_pydrex, run_tlc, scratch  # noqa: F401
+from harness.common import REPO, SEED, Check, MachineryError, parse_printed_json, quiet_pydrex, run_tlc, scratch, write_ndjson  # noqa: F401
 
 if True:  # tomllib as used by the code under test
     import sys
@@ -673,24 +673,115 @@ class ConfigReplayer:
 _G = {}
 
 
+def canon_digest(x):
+    """Canonical digest of a parsed configuration (no memory addresses, no dictionary order)."""
+    import enum
+    import hashlib
+    import pathlib
+
+    import numpy as np
+
+    def canon(v):
+        if isinstance(v, dict):
+            return ["d", sorted([str(k), canon(w)] for k, w in v.items())]
+        if isinstance(v, enum.Enum):
+            return ["e", type(v).__name__, v.name]
+        if isinstance(v, (bool, int, float, complex, str, type(None))):
+            return ["s", type(v).__name__, repr(v)]
+        if isinstance(v, np.ndarray):
+            if v.dtype == object:
+                return ["ao", canon(v.tolist())]
+            return ["a", v.dtype.str, list(v.shape), hashlib.sha256(np.ascontiguousarray(v).tobytes()).hexdigest()[:16]]
+        if isinstance(v, (list, tuple)):
+            return ["l", type(v).__name__, list(getattr(v, "_fields", ())), [canon(w) for w in v]]
+        if isinstance(v, pathlib.PurePath):
+            return ["p", str(v)]
+        if isinstance(v, np.generic):
+            return ["g", v.dtype.str, repr(v.item())]
+        if callable(v):
+            return ["c", getattr(v, "__module__", "") or "", getattr(v, "__qualname__", type(v).__name__)]
+        r = repr(v)
+        return ["o", type(v).__name__, "" if " at 0x" in r else r[:200]]
+
+    import re
+
+    if isinstance(x, dict) and isinstance(x.get("name"), str) and re.fullmatch(r"pydrex\.\d+", x["name"]):
+        x = dict(x, name="pydrex.<randomised default>")     # the documented default of an omitted name is drawn afresh
+    return hashlib.sha256(json.dumps(canon(x), sort_keys=True).encode()).hexdigest()[:16]
+
+
+def scribble(x, depth=0):
+    """What a caller may do to a result: overwrite every entry of every nested dictionary, extend every list."""
+    if depth > 6:
+        return
+    if isinstance(x, dict):
+        for k in list(x):
+            v = x[k]
+            if isinstance(v, (dict, list)):
+                scribble(v, depth + 1)
+            try:
+                x[k] = ("scribbled", k)
+            except Exception:  # noqa: BLE001 - a read-only mapping cannot be scribbled on: nothing to do
+                return
+        try:
+            x["scribbled"] = True
+        except Exception:  # noqa: BLE001
+            pass
+    elif isinstance(x, list):
+        for v in x:
+            if isinstance(v, (dict, list)):
+                scribble(v, depth + 1)
+        x.append("scribbled")
+
+
+HIST_BLOCK = 100
+
+
 def _replay_chunk(bound):
     """Replay cases[lo:hi] (own scratch sub-directory; runs in a forked worker)."""
     w, lo, hi = bound
     cases, table = _G["cases"], _G["table"]
     rep = ConfigReplayer(table, _G["base"] / f"cfg{w}")
     col, fails, passing, outcomes = Collector(), [], None, {}
+    events = []
+    first_ok = None
+
+    def note(tid, i, outcome, result):
+        try:
+            dig = canon_digest(result) if outcome == "ok" else "outcome:" + outcome
+        except Exception as ex:  # noqa: BLE001
+            dig = "uncanonical:" + type(ex).__name__
+        events.append(dict(tid=tid, ev="Parse", file=i, dig=dig))
+
     for i in range(lo, hi):
         case = cases[i]
         text = rep.build(case)
         outcome, result, msg = rep.run(text)
+        tid = w * 100000 + (i - lo) // HIST_BLOCK
+        if (i - lo) % HIST_BLOCK == 0:
+            first_ok = None
+        note(tid, i, outcome, result)
         mine = []
         clean = rep.judge(case, outcome, result, dict(toml=text, msg=msg), col, mine)
+        if outcome == "ok":
+            # history clause (ConfigHistory.tla): the caller modifies the result, then the same file is parsed again;
+            # at the end of every block the first file of the block is parsed once more
+            scribble(result)
+            events.append(dict(tid=tid, ev="Scribble", file=i))
+            o2, r2, _ = rep.run(text)
+            note(tid, i, o2, r2)
+            scribble(r2)
+            if first_ok is None:
+                first_ok = (i, text)
+            elif (i - lo) % HIST_BLOCK == HIST_BLOCK - 1 or i == hi - 1:
+                o3, r3, _ = rep.run(first_ok[1])
+                note(tid, first_ok[0], o3, r3)
         fails += [(i, outcome, msg) for _ in mine]
         if clean and outcome == "ok" and passing is None and any(not b and e[1] == "py" for b, e in zip(case["keys"], case["exp"])):
             passing = i
         key = ("fault:" + case["fault"] if case["fault"] != "none" else "lattice") + " " + "|".join(case["outcome"]) + " -> " + outcome
         outcomes[key] = outcomes.get(key, 0) + 1
-    return col, fails, passing, outcomes
+    return col, fails, passing, outcomes, events
 
 
 def _omitted(case, table):
@@ -856,7 +947,9 @@ def run_config(chk, d, tier, decl_file):
         with multiprocessing.get_context("fork").Pool(nproc) as pool:
             parts = pool.map(_replay_chunk, bounds)
     col, fails, passing, outcomes = Collector(), [], None, {}
-    for pcol, pfails, ppassing, poutcomes in parts:
+    history = []
+    for pcol, pfails, ppassing, poutcomes, pevents in parts:
+        history += pevents
         col.merge(pcol)
         for i, out, msg in pfails:
             text = rep.build(cases[i])
@@ -876,6 +969,40 @@ def run_config(chk, d, tier, decl_file):
     n_expl = attribute_failures(fails, table, col, n_full)
     chk.cov["config_outcomes"] = dict(sorted(outcomes.items()))
     chk.cov["outcome_mismatches"] = dict(total=len(fails), explained_by_an_established_mode_or_single_key_cause=n_expl)
+    # ---- history clause: the recorded Parse / Scribble log against ConfigHistoryTrace.tla
+    def validate_history(lines):
+        path = d / "config_history.ndjson"
+        write_ndjson(path, lines)
+        r = run_tlc("ConfigHistoryTrace", "ConfigHistoryTrace", workers=1, env={"TRACE_FILE": str(path)}, timeout=1500)
+        if f'<<"DONE", {len(lines)}>>' not in r.output:
+            raise MachineryError("ConfigHistoryTrace did not consume the whole log")
+        return parse_printed_json(r.output, "REJECT"), r
+
+    design = run_tlc("ConfigHistory", "ConfigHistory", workers=2, timeout=300)
+    chk.add_tlc("ConfigHistory", design, "parse is a function of the file: every interleaving of Parse / Scribble over 3 files up to 4 parses, FunctionOfFile")
+    rejects, hres = validate_history(history)
+    chk.add_tlc("ConfigHistoryTrace", hres, f"{len(history)} recorded Parse / Scribble events (every parsed configuration is scribbled over and parsed again)")
+    chk.cov["history_events"] = len(history)
+    uncanon = sorted({e["dig"] for e in history if e.get("dig", "").startswith("uncanonical:")})
+    if uncanon:
+        chk.machinery_doubt(f"history clause: {uncanon} while digesting parsed configurations")
+    chk.control("digest-separates-results", canon_digest(dict(a=[1, 2.0], b=dict(c="x"))) != canon_digest(dict(a=[1, 2.5], b=dict(c="x")))
+                and canon_digest(dict(a=1, b=2)) == canon_digest(dict(b=2, a=1)) and len({e["dig"] for e in history if e["ev"] == "Parse"}) > 50)
+    seen_h = set()
+    for rj in rejects:
+        first = next(e for e in history if e["tid"] == rj["tid"] and e["file"] == rj["file"] and e["ev"] == "Parse")
+        got = history[rj["l"] - 1]["dig"]
+        kind = "outcome-changed" if (got.startswith("outcome:") or first["dig"].startswith("outcome:")) else "value-changed"
+        key = (kind, cases[rj["file"]]["mode"])
+        if key in seen_h:
+            continue
+        seen_h.add(key)
+        chk.violation(dict(clause="parse-depends-on-history", kind=kind, mode=cases[rj["file"]]["mode"]),
+                      f"parse_config of the same file gave a different result after the caller modified an earlier result ({kind}; mode {cases[rj['file']]['mode']})",
+                      dict(kind="config-history", toml=rep.build(cases[rj["file"]]), first=first["dig"], later=got,
+                           how="parse, overwrite every entry of the returned nested dictionaries, parse the same file again"))
+    bad_h, _ = validate_history([dict(tid=1, ev="Parse", file=1, dig="a"), dict(tid=1, ev="Scribble", file=1), dict(tid=1, ev="Parse", file=1, dig="b"), dict(tid=2, ev="Parse", file=1, dig="b")])
+    chk.control("history-trace-rejects-changed-digest", len(bad_h) == 1 and bad_h[0]["l"] == 3, str(bad_h))
     col.flush(chk)
     chk.sample(dict(kind="configuration", toml=rep.build(cases[len(cases) // 2]), expected_outcome=cases[len(cases) // 2]["outcome"]))
     fault_case = next(c for c in cases if c["fault"] == "sum-below-one")
